@@ -45,7 +45,8 @@ build_origami_race() { build_to "$BUILD/origami-race" "$REPO" -tags verif -race 
 build_check()        { build_to "$BUILD/$1" "$H" $MODFLAG -tags verif "./cmd/$1"; }
 build_check_race()   { build_to "$BUILD/$1-race" "$H" $MODFLAG -tags verif -race "./cmd/$1"; }
 
-ids() { (cd "$H/cmd" && ls -d c[0-9][0-9] 2>/dev/null); }
+# registered checks only (a package still under construction must not fail the setup)
+ids() { if [ -f "$H/REGISTERED" ]; then grep -v '^#' "$H/REGISTERED" | tr 'A-Z' 'a-z'; else (cd "$H/cmd" && ls -d c[0-9][0-9] 2>/dev/null); fi; }
 
 case "${1:-}" in
   --setup)
